@@ -5,8 +5,8 @@
    model, it proves nothing), binary64 rounding is outside every theorem. *)
 From Coq Require Import Reals.
 From Coquelicot Require Import Coquelicot.
-From MV Require Import Lib.Rigid Gen.GenCore Model.CorePinned Model.CoreNum Model.CoreModel Model.CoreSpec Model.CoreFrame
-  Proofs.CoreProofs Proofs.CoreIntegrals Proofs.CorePolyline Proofs.CoreFrameProofs Proofs.CoreFloatWitness.
+From MV Require Import Lib.Rigid Gen.GenCore Gen.GenCuboid Model.CuboidCore Model.CorePinned Model.CoreNum Model.CoreModel Model.CoreSpec Model.CoreFrame
+  Proofs.CoreProofs Proofs.CoreIntegrals Proofs.CorePolyline Proofs.CoreCuboidInt Proofs.CoreFrameProofs Proofs.CoreFloatWitness.
 Open Scope R_scope.
 
 (* Dipole: for every moment and every observer off the dipole, dipole_Hfield is the point-dipole
@@ -63,6 +63,30 @@ Theorem C01_polyline_on_line_is_biot_savart : forall (cur : R) (o p1 p2 : RV3) (
   is_RInt (bs_segment_integrand cur o p1 p2 i) 0 1 (comp i (polyline_H NumR o p1 p2 cur)).
 Proof. exact polyline_on_line_is_biot_savart. Qed.
 Print Assumptions C01_polyline_on_line_is_biot_savart.
+
+(* Cuboid, PARTIAL (stretch theorem of DESIGN 5/C01).  About magnet_cuboid_Bfield as TRANSLATED from /repo on every
+   run (Gen/GenCuboid.v: the six corner-sum terms and the contribution table; Model/CuboidCore.v: octant folding and sign
+   matrices; both owned by C05/C13 and imported read-only), with numpy's arctan2 (CoreNum.Ratan2):
+   for a z-polarised cuboid and every observer ABOVE THE TOP FACE (z > dz/2, any x, y) the z-component of B equals
+   J/(4 pi) * (Coulombian integral of the top face's surface charge +J  -  that of the bottom face), each face integral
+   being the iterated Riemann integral  Int_{-a}^{a} Int_{-b}^{b} h / |o - r'|^3 dy' dx'  of the normal component of the
+   point-charge kernel, h = distance of the observer from the face's plane; second conjunct: both the outer and every inner
+   integral exist (is_RInt), i.e. face_integral is a genuine integral.
+   PARTIAL because: only polarisation along z and only the field component along z (term ff1z), only observers beyond the
+   faces in z; the in-plane position enters through the code's octant folding (fold_x x = |x|, fold_y y = -|y|): that
+   the face integral is invariant under these reflections is not formalised; the integral is an iterated 1-D integral, not a
+   2-D surface integral; x/y-polarised parts, log terms (the three ff2 terms), inside observers and the six other classes stay unproved. *)
+Theorem C01_cuboid_polz_above_is_coulomb_partial :
+  (forall x y z dx dy dz J : R, 0 < dz -> dz / 2 < z ->
+     comp 2 (cuboid_B Ratan2 (x, y, z) (dx, dy, dz) (0, 0, J))
+     = J / (4 * PI) * (face_integral (z - dz / 2) (fold_x x) (fold_y y) (dx / 2) (dy / 2)
+                       - face_integral (z + dz / 2) (fold_x x) (fold_y y) (dx / 2) (dy / 2)))
+  /\ (forall h x y a b : R, 0 < h ->
+        is_RInt (fun x' => RInt (fun y' => coulomb_kern h (x - x') (y - y')) (- b) b) (- a) a (face_integral h x y a b)
+        /\ (forall x', is_RInt (fun y' => coulomb_kern h (x - x') (y - y')) (- b) b
+                         (RInt (fun y' => coulomb_kern h (x - x') (y - y')) (- b) b))).
+Proof. exact cuboid_polz_above_is_coulomb_partial. Qed.
+Print Assumptions C01_cuboid_polz_above_is_coulomb_partial.
 
 (* getBH_level1: in every rigid-motion algebra, the field returned at the global image
    (R ol + p) of a local point ol is the rotated local field R F(ol) *)
